@@ -553,6 +553,28 @@ def mutate_doc(rng, doc):
     return doc, edits
 
 
+TAG_BODIES = [
+    "svc: %s\n  a: 1\n  b: [x, y]\nother: v\n",
+    "items:\n  - %s {a: 1}\n  - plain\n",
+    "--- %s\na: 1\nb: two\n",
+    "svc: %s {a: 1, b: two}\nlast: [1, 2]\n",
+    "deep:\n  list:\n    - - %s\n        k: v\n",
+]
+
+
+def tag_pair(rng):
+    """
+    Two documents that differ in nothing but the YAML tag of one mapping
+    (S16aa): Python's == calls them equal, the Differ does not.
+    """
+    body = rng.choice(TAG_BODIES)
+    one, two = rng.sample(["!one", "!two", "!x/y", ""], 2)
+    if body.startswith("---") and "" in (one, two):
+        one, two = "!one", "!two"
+    return (body % one).replace(":  {", ": {").replace("-  {", "- {"), \
+        (body % two).replace(":  {", ": {").replace("-  {", "- {")
+
+
 def gen_diff(rng):
     lhs = doc_for(rng, sets=False, multiline=rng.random() < 0.4)
     if rng.random() < 0.4:
@@ -569,7 +591,12 @@ def gen_diff(rng):
     rtext, rsuf = render_doc(rng, rhs)
     opts = []
     multi = None
-    if rng.random() < 0.12:
+    tagonly = rng.random() < 0.04
+    if tagonly:
+        ltext, rtext = tag_pair(rng)
+        lsuf = rsuf = ".yaml"
+        edits = ["tag-only"]
+    if not tagonly and rng.random() < 0.12:
         # the compared documents sit inside multi-document files
         lpos = rng.randrange(3)
         rpos = rng.randrange(2)
@@ -631,6 +658,11 @@ def expect_diff(scn):
     # 1, 1.0 and true compare equal in Python; a pair that differs only in
     # such a way is neither clearly "equal" nor clearly "different"
     ambiguous = (not equal) and plain(ldoc) == plain(rdoc)
+    # so is a pair that differs only in the tag of a mapping: the Differ
+    # reports it, plain data does not know it; tool == library is all that
+    # is demanded of such a pair
+    tag_only = "tag-only" in scn.get("edits", ())
+    ambiguous = ambiguous or tag_only
     def opt(flag):
         return scn["opts"][scn["opts"].index(flag) + 1] \
             if flag in scn["opts"] else None
@@ -674,7 +706,7 @@ def expect_diff(scn):
             # key/deep modes match Array-of-Hashes records by an identity
             # key; records lacking it are unmatchable BY DESIGN and are
             # reported as removed and re-added even in identical documents
-            "identity_keyed": keyed,
+            "identity_keyed": keyed, "tag_only": tag_only,
             "stdout": "".join(c + "\n" for c in "\n\n".join(chunks).split(
                 "\n")) if chunks else ""}
 
@@ -693,6 +725,7 @@ def judge_diff(scn, exp, res):
         out.append("diff:exit-%s-but-documents-are-%s" % (
             res.exit, "data-equal" if exp["equal"] else "different"))
     if exp["equal"] and res.exit == 1 and not exp["identity_keyed"] \
+            and not exp.get("tag_only") \
             and "diff:exit-1-but-documents-are-data-equal" not in out:
         out.append("diff:exit-1-but-documents-are-data-equal")
     lib = 1 if exp["library_changed"] else 0
